@@ -58,9 +58,13 @@ def decode_instruction(instr):
         raise NotImplementedError()
     elif substring(instr, 28, 27) == 0b11 and substring(instr, 26, 24) == 0b010:
         # Data-processing (register)
+        if substring(instr, 15, 12) != 0b1111:
+            raise UndefinedInstructionException()
         return thumb_data_processing_register.decode_instruction(instr)
     elif substring(instr, 28, 27) == 0b11 and substring(instr, 26, 23) == 0b0110:
         # Multiply, multiply accumulate, and absolute difference
+        if substring(instr, 7, 6) != 0b00:
+            raise UndefinedInstructionException()
         return thumb_multiply_multiply_accumulate_and_absolute_difference.decode_instruction(instr)
     elif substring(instr, 28, 27) == 0b11 and substring(instr, 26, 23) == 0b0111:
         # Long multiply, long multiply accumulate, and divide
